@@ -77,8 +77,41 @@ def panic_sources(f):
                     continue
                 if _index_guarded(f, b, t):
                     continue          # `if i >= v.len() { return .. }` / `if i < v.len() { v[i] .. }`: the access cannot be out of range
+                if _range_clamped(f, b, t):
+                    continue          # `bytes[..min(bytes.len(), 256)]`: a prefix clamped to the length (of bytes, not of a str: a str can still be cut inside a character)
                 out.append((b, "index", "%s<%s>" % (decl.split("::")[-1], ",".join(g[-1:]))))
     return out
+
+
+def _range_clamped(f, b, t):
+    """the indexing call takes `[0..min(len(v), K)]` / `[..min(len(v), K)]` of the byte slice or vector v it indexes"""
+    from vlib.flow import Expr, expr_strip_blocks, ref_place
+    if len(t["args"]) < 2:
+        return False
+    recv_ty = f.local_ty(op_local(t["args"][0])) if op_local(t["args"][0]) is not None else ""
+    if "str" in recv_ty.replace("&", "").split("<")[0].split() or recv_ty.replace("&", "").strip() in ("str", "mut str") or "String" in recv_ty:
+        return False
+    ex = Expr(f)
+    e = expr_strip_blocks(ex.of_operand(t["args"][1]))
+    if e[0] != "agg" or not (e[1].endswith("Range::Range") or e[1].endswith("RangeTo::RangeTo")):
+        return False
+    parts = e[2]
+    if e[1].endswith("Range::Range"):
+        if len(parts) != 2 or parts[0] != ("const", 0):
+            return False
+        end = parts[1]
+    else:
+        end = parts[0]
+    if end[0] != "call" or not end[1].endswith("::min") or len(end[2]) != 2:
+        return False
+    vec = expr_strip_blocks(ex.of_operand(t["args"][0]))
+    for x in end[2]:
+        if x[0] == "call" and x[1].endswith("::len") and len(x[2]) == 1:
+            inner = x[2][0]
+            # len() of the very thing that is indexed (through any number of derefs / re-borrows, which the expression engine drops)
+            if repr(inner) == repr(vec) or repr(inner) in repr(vec) or repr(vec) in repr(inner):
+                return True
+    return False
 
 
 def _index_guarded(f, b, t):
@@ -165,6 +198,12 @@ def rule_decode_nopanic(ctx, cfg, F):
                  "decode closure: OpaqueIpcMessage::to, every Deserialize impl of the crate and every crate function they call")
     D = decode_closure(F)
     R.count("decode_fns[%s]" % cfg, len(D))
+    # a received message that has not been decoded yet can be printed (`{:?}` in a log line ahead of `to()`): that must not panic on its bytes either
+    for f_ in F.fns.values():
+        if (f_.impl_self or "") == "ipc::OpaqueIpcMessage" and (f_.impl_trait or "") in ("std::fmt::Debug", "std::fmt::Display") and f_.path not in D:
+            D = dict(D)
+            D[f_.path] = f_
+            R.count("message_printers[%s]" % cfg)
     n = 0
     fresh = fresh_slot_unwraps(F, D)
     for p in sorted(D):
@@ -277,6 +316,9 @@ def rule_take_once(ctx, cfg, F, D):
                     e = expr_strip_blocks(ex.of_operand(st["rv"]["a"][0]))
                     if (e[0] == "agg" and e[1].endswith("Option::Some")) or (e[0] == "agg" and e[1].endswith("Option::None")) or e[0] == "const":
                         R.ok("%s: the region field is Some(taken region) or the empty value" % f.path, f.loc(b, si), cfg)
+                    elif _defs_some_or_none(f, st["rv"]["a"][0]):
+                        # `let region = if index == MAX { None } else { Some(taken) }; Ok(IpcSharedMemory { os_shared_memory: region })`: each arm is one of the two accepted values
+                        R.ok("%s: the region field is Some(taken region) or the empty value on every path" % f.path, f.loc(b, si), cfg)
                     elif _known_some(f, b, st["rv"]["a"][0]) and any(x in chain_calls_ip(F, f, st["rv"]["a"][0]) for x in TAKERS):
                         # `if taken.is_none() { return Err(..) } Ok(IpcSharedMemory { os_shared_memory: taken })`: the lookup result is kept as the Option it is,
                         # but only where it has been found to hold a region, and it was moved out of its slot
@@ -287,6 +329,23 @@ def rule_take_once(ctx, cfg, F, D):
                                   f.path, f.loc(b, si), config=cfg)
     R.count("conversion_sites[%s]" % cfg, n)
 
+
+
+def _defs_some_or_none(f, operand):
+    """the operand is (a chain of plain copies of) a local with several definitions, each of them the literal `Some(..)` or `None`"""
+    l = op_local(operand)
+    if l is None or (op_place(operand) or {}).get("p"):
+        return False
+    for _ in range(8):
+        ds = [d for d in f.defs().get(l, []) if not f.is_cleanup(d[0])]
+        if len(ds) == 1 and ds[0][1] is not None and ds[0][2]["rv"]["r"] == "use" and not ds[0][2]["lhs"].get("p") and \
+                op_place(ds[0][2]["rv"]["a"][0]) is not None and not ds[0][2]["rv"]["a"][0]["pl"].get("p"):
+            l = ds[0][2]["rv"]["a"][0]["pl"]["l"]
+            continue
+        break
+    if len(ds) < 2:
+        return False
+    return all(d[1] is not None and not d[2]["lhs"].get("p") and d[2]["rv"]["r"] == "agg" and d[2]["rv"]["kind"].get("adt") == "std::option::Option" for d in ds)
 
 
 def _known_some(f, b, operand):
